@@ -258,6 +258,13 @@ func c10CliWorld(rc *RunCtx) {
 	if got == nil {
 		return
 	}
+	if strings.Contains(string(got.Stderr), "Error creating function") {
+		// the loader rejected a definition and said so (a constant argument that a helper cannot take, ...): nothing was
+		// loaded under that name. With a name that is also a builtin's the call then resolves to the builtin - the property
+		// speaks of functions that were loaded
+		rc.Probes["cli-funcs-definition-rejected-by-loader"]++
+		return
+	}
 	if got.Exit != ref.Exit {
 		if got.Exit == 2 && strings.Contains(string(got.Stderr), "rror") {
 			rc.Probes["cli-funcs-form-does-not-compile"]++
